@@ -138,6 +138,10 @@ Proof.
     destruct (nth_error (labels s) b) as [lb|]; [|exact Hl].
     destruct (size_ok size); simpl; [|exact Hl].
     destruct (match ll with Some (ls, lo) => _ | None => None end); simpl; exact Hl.
+  - destruct (nth_error (labels s) l) as [ll|]; [|exact Hl].
+    destruct (nth_error (labels s) b) as [lb|]; [|exact Hl].
+    destruct (size_ok size); simpl; [|exact Hl].
+    destruct (match ll with Some (ls, lo) => _ | None => None end); simpl; [destruct (_ || _); exact Hl|exact Hl].
 Qed.
 
 Lemma run_lay_none ops : forall s, inv s -> lay_none s -> no_resolve ops -> lay_none (run s ops).
@@ -391,4 +395,187 @@ Theorem x64_rip_wrap_refuted :
     x64_rip_field disp imm lo hole <> lo + disp - (hole + 4 + imm).
 Proof.
   exists (- 2 ^ 31), 0, 0, 19. vm_compute. repeat split; try discriminate. intros (H & _). apply H. reflexivity.
+Qed.
+
+(* ------------------------------------------------------------------ any interleaving of layouts (several Flatten/ResolveCross), stable offsets *)
+Definition resolves_with (offs : list Z) (ops : list op) : Prop :=
+  forall o, In o ops -> is_resolve o = true -> o = OResolve offs.
+
+Definition lay_ok (offs : list Z) (s : state) : Prop :=
+  forall id r so to, nth_error (refs s) id = Some r -> r_lay r = Some (so, to) ->
+    exists ls lo, nth_error (labels s) (r_label r) = Some (Some (ls, lo)) /\ so = nth (r_sec r) offs 0 /\ to = nth ls offs 0.
+
+Lemma step_label_mono s o : label_mono (labels s) (labels (fst (step s o))).
+Proof.
+  destruct o; simpl; try (intros ? ? X; exact X).
+  - apply label_mono_app.
+  - destruct (Nat.ltb k (length (secs s))); intros ? ? X; exact X.
+  - destruct (0 <=? n); intros ? ? X; exact X.
+  - destruct (nth_error (labels s) l) as [lb|]; [|intros ? ? X; exact X].
+    destruct (hole_ok k w0); simpl; [|intros ? ? X; exact X].
+    destruct lb as [[ls lo]|]; [|intros ? ? X; exact X].
+    destruct (Nat.eqb ls (cur s)); [|intros ? ? X; exact X].
+    destruct (write_offset _ _ _); intros ? ? X; exact X.
+  - destruct (nth_error (labels s) l) as [[v|]|] eqn:El; try (intros ? ? X; exact X).
+    unfold bind_rel. simpl. apply label_mono_upd. exact El.
+  - destruct (nth_error (labels s) l) as [lb|]; [|intros ? ? X; exact X].
+    destruct (size_ok size); simpl; [|intros ? ? X; exact X]. destruct lb; intros ? ? X; exact X.
+  - destruct (nth_error (labels s) l) as [ll|]; [|intros ? ? X; exact X].
+    destruct (nth_error (labels s) b) as [lb|]; [|intros ? ? X; exact X].
+    destruct (size_ok size); simpl; [|intros ? ? X; exact X].
+    destruct (match ll with Some (ls, lo) => _ | None => None end); simpl; intros ? ? X; exact X.
+  - destruct (nth_error (labels s) l) as [ll|]; [|intros ? ? X; exact X].
+    destruct (nth_error (labels s) b) as [lb|]; [|intros ? ? X; exact X].
+    destruct (size_ok size); simpl; [|intros ? ? X; exact X].
+    destruct (match ll with Some (ls, lo) => _ | None => None end); simpl; [destruct (_ || _)|]; intros ? ? X; exact X.
+Qed.
+
+(* what an operation can do to the ghost layout of a reference *)
+Lemma step_lay_change s o : inv s ->
+  forall id r', nth_error (refs (fst (step s o))) id = Some r' ->
+    nth_error (refs s) id = Some r' \/ r_lay r' = None \/
+    (exists offs ls lo, o = OResolve offs /\ nth_error (labels s) (r_label r') = Some (Some (ls, lo)) /\
+                        r_lay r' = Some (nth (r_sec r') offs 0, nth ls offs 0)).
+Proof.
+  intros I. destruct o; simpl; try (intros id r' H; left; exact H).
+  - destruct (Nat.ltb k (length (secs s))); intros id r' H; left; exact H.
+  - destruct (0 <=? n); intros id r' H; left; exact H.
+  - destruct (nth_error (labels s) l) as [lb|]; [|intros id r' H; left; exact H].
+    destruct (hole_ok k w0); simpl; [|intros id r' H; left; exact H].
+    assert (Q : forall r, r_lay r = None -> forall id r', nth_error (refs s ++ [r]) id = Some r' ->
+                nth_error (refs s) id = Some r' \/ r_lay r' = None \/
+                (exists offs ls lo, ORef k rel l pre w0 post = OResolve offs /\ nth_error (labels s) (r_label r') = Some (Some (ls, lo)) /\
+                                    r_lay r' = Some (nth (r_sec r') offs 0, nth ls offs 0))).
+    { intros r Hr id r' H. apply nth_error_snoc_inv in H. destruct H as [H|(_ & ->)]; [left; exact H|right; left; exact Hr]. }
+    destruct lb as [[ls lo]|]; [|intros id r'; simpl; apply Q; reflexivity].
+    destruct (Nat.eqb ls (cur s)); [|intros id r'; simpl; apply Q; reflexivity].
+    destruct (write_offset _ _ _); simpl; [|intros id r' H; left; exact H]. intros id r'; simpl; apply Q; reflexivity.
+  - destruct (nth_error (labels s) l) as [[v|]|] eqn:El; try (intros id r' H; left; exact H).
+    unfold bind_rel. simpl.
+    set (lbls' := upd (labels s) l (Some (cur s, s_len (cur_sec s)))).
+    assert (W : walk_post lbls' (bind_sel l (cur s) (s_len (cur_sec s))) (pending s) (refs s)
+                  (resolve_list (bind_sel l (cur s) (s_len (cur_sec s))) true (pending s) (refs s))).
+    { apply walk_inv; [|apply (inv_nodup _ _ _ _ _ I)|apply (inv_fx _ _ _ _ _ I)].
+      apply bind_sel_sound. unfold lbls'. eapply nth_error_upd_eq; eauto. }
+    intros id r' Hr. destruct (wp_lay _ _ _ _ _ W id r' Hr) as [H|(fx & lo & _ & _ & Hsel)]; [left; exact H|].
+    right. left. unfold bind_sel in Hsel. destruct (Nat.eqb (fx_label fx) l); [|discriminate].
+    destruct (Nat.eqb (fx_sec fx) (cur s)); [|discriminate]. injection Hsel as <- _. reflexivity.
+  - destruct (nth_error (labels s) l) as [lb|]; [|intros id r' H; left; exact H].
+    destruct (size_ok size); simpl; [|intros id r' H; left; exact H]. destruct lb; intros id r' H; left; exact H.
+  - destruct (nth_error (labels s) l) as [ll|]; [|intros id r' H; left; exact H].
+    destruct (nth_error (labels s) b) as [lb|]; [|intros id r' H; left; exact H].
+    destruct (size_ok size); simpl; [|intros id r' H; left; exact H].
+    destruct (match ll with Some (ls, lo) => _ | None => None end); simpl; intros id r' H; left; exact H.
+  - set (W := resolve_list (resolve_sel (labels s) offs) false (pending s) (refs s)).
+    assert (WP : walk_post (labels s) (resolve_sel (labels s) offs) (pending s) (refs s) W).
+    { apply walk_inv; [apply resolve_sel_sound|apply (inv_nodup _ _ _ _ _ I)|apply (inv_fx _ _ _ _ _ I)]. }
+    intros id r' Hr. destruct (wp_lay _ _ _ _ _ WP id r' Hr) as [H|(fx & lo' & Hin & Hid & Hsel)]; [left; exact H|].
+    right. right. unfold resolve_sel in Hsel.
+    destruct (nth_error (labels s) (fx_label fx)) as [[[ls' lo'']|]|] eqn:El; try discriminate.
+    destruct (_ || _); [discriminate|]. injection Hsel as Hlay Hlo.
+    destruct (inv_fx _ _ _ _ _ I fx Hin) as (r0 & Hr0 & Hsec & _ & _ & _ & Hlab & _).
+    destruct (wp_ghost _ _ _ _ _ WP id r' Hr) as (r1 & Hr1 & (Gs & _ & _ & _ & Gl & _)).
+    rewrite Hid in Hr0. rewrite Hr0 in Hr1. injection Hr1 as <-.
+    exists offs, ls', lo''. split; [reflexivity|]. rewrite Gl, Hlab, Gs, Hsec. split; [exact El|]. symmetry. exact Hlay.
+  - destruct (nth_error (labels s) l) as [ll|]; [|intros id r' H; left; exact H].
+    destruct (nth_error (labels s) b) as [lb|]; [|intros id r' H; left; exact H].
+    destruct (size_ok size); simpl; [|intros id r' H; left; exact H].
+    destruct (match ll with Some (ls, lo) => _ | None => None end); simpl; [destruct (_ || _)|]; intros id r' H; left; exact H.
+Qed.
+
+Lemma step_lay_ok offs s o : inv s -> lay_ok offs s -> (is_resolve o = true -> o = OResolve offs) -> lay_ok offs (fst (step s o)).
+Proof.
+  intros I L Ho id r so to Hr Hlay.
+  destruct (step_lay_change s o I id r Hr) as [H|[H|(offs' & ls & lo & -> & Hl & Hl')]].
+  - destruct (L id r so to H Hlay) as (ls & lo & X & Y). exists ls, lo. split; [apply (step_label_mono s o); exact X|exact Y].
+  - congruence.
+  - specialize (Ho eq_refl). injection Ho as ->. rewrite Hlay in Hl'. injection Hl' as -> ->.
+    exists ls, lo. split; [apply (step_label_mono s (OResolve offs)); exact Hl|auto].
+Qed.
+
+Lemma run_lay_ok offs ops : forall s, inv s -> lay_ok offs s -> resolves_with offs ops -> lay_ok offs (run s ops).
+Proof.
+  induction ops as [|o t IH]; intros s I L R; simpl; [exact L|].
+  apply IH; [apply step_inv; exact I|apply step_lay_ok; [exact I|exact L|intros H; apply R; [left; reflexivity|exact H]]|].
+  intros o' Hin. apply R. right. exact Hin.
+Qed.
+
+(* the full statement: ANY operation list, any number of layouts anywhere in it, as long as they report the same section offsets *)
+Theorem resolved_exact_stable ops offs id r :
+  resolves_with offs ops ->
+  let s := run init ops in
+  nth_error (refs s) id = Some r -> ~ In id (ids (pending s)) ->
+  exists ls lo, nth_error (labels s) (r_label r) = Some (Some (ls, lo)) /\
+                decode_kind (r_kind r) (r_word r) = final_disp offs ls lo r /\
+                Z.land (r_word r) (Z.lnot (kind_mask (r_kind r))) = r_w0 r /\
+                (ls <> r_sec r -> exists so to, r_lay r = Some (so, to)).
+Proof.
+  intros R s Hr Hp.
+  assert (I : inv s) by (apply run_inv, inv_init).
+  assert (L : lay_ok offs s).
+  { apply run_lay_ok; [apply inv_init| |exact R]. intros [|i] r0 so to H; discriminate. }
+  destruct (resolved_inv ops id r Hr Hp) as (ls & lo & Hl & (m & He & Hw) & (W1 & W2)).
+  pose proof (inv_hole _ _ _ _ _ I id r Hr) as Hh.
+  exists ls, lo. split; [exact Hl|].
+  assert (E : disp (lay_so (r_lay r)) (lay_to (r_lay r)) lo (r_site r) (r_rel r) = final_disp offs ls lo r).
+  { unfold disp, final_disp. destruct (r_lay r) as [[so to]|] eqn:El; simpl.
+    - destruct (L id r so to Hr El) as (ls' & lo' & Hl' & -> & ->). fold s in Hl. rewrite Hl in Hl'. injection Hl' as <- <-. reflexivity.
+    - rewrite (W1 eq_refl). f_equal; lia. }
+  rewrite E in He. rewrite Hw.
+  destruct (enc_decode _ _ _ _ Hh (to_i64_int64 _) He) as (D1 & D2).
+  split; [exact D1|]. split; [exact D2|].
+  intros Hne. destruct (r_lay r) as [[so to]|]; [eauto|]. exfalso. apply Hne. apply W1. reflexivity.
+Qed.
+
+(* order irrelevance: two programs whose reference logs (site, format, addend, label, emitted word) and final label tables agree -
+   i.e. that differ only in WHEN labels were bound / layouts were requested and in the interleaving of the sections - leave the same word
+   in every resolved reference *)
+Definition ghost_of (r : refrec) := (r_sec r, r_site r, r_rel r, r_kind r, r_label r, r_w0 r).
+
+Theorem order_irrelevant ops1 ops2 offs id r1 r2 :
+  resolves_with offs ops1 -> resolves_with offs ops2 ->
+  let s1 := run init ops1 in let s2 := run init ops2 in
+  labels s1 = labels s2 ->
+  nth_error (refs s1) id = Some r1 -> nth_error (refs s2) id = Some r2 -> ghost_of r1 = ghost_of r2 ->
+  ~ In id (ids (pending s1)) -> ~ In id (ids (pending s2)) ->
+  r_word r1 = r_word r2.
+Proof.
+  intros R1 R2 s1 s2 HL H1 H2 HG P1 P2.
+  assert (F : forall ops r, resolves_with offs ops -> nth_error (refs (run init ops)) id = Some r -> ~ In id (ids (pending (run init ops))) ->
+            exists ls lo m, nth_error (labels (run init ops)) (r_label r) = Some (Some (ls, lo)) /\
+                            encode_offset (fmt_of_kind (r_kind r)) (final_disp offs ls lo r) = Some m /\ r_word r = Z.lor (r_w0 r) m).
+  { intros ops r R Hr Hp.
+    assert (I : inv (run init ops)) by (apply run_inv, inv_init).
+    assert (L : lay_ok offs (run init ops)).
+    { apply run_lay_ok; [apply inv_init| |exact R]. intros [|i] r0 so to H; discriminate. }
+    destruct (resolved_inv ops id r Hr Hp) as (ls & lo & Hl & (m & He & Hw) & (W1 & W2)).
+    exists ls, lo, m. split; [exact Hl|]. split; [|exact Hw]. rewrite <- He. f_equal.
+    unfold disp, final_disp. destruct (r_lay r) as [[so to]|] eqn:El; simpl.
+    - destruct (L id r so to Hr El) as (ls' & lo' & Hl' & -> & ->). rewrite Hl in Hl'. injection Hl' as <- <-. reflexivity.
+    - rewrite (W1 eq_refl). f_equal; lia. }
+  destruct (F ops1 r1 R1 H1 P1) as (ls1 & lo1 & m1 & L1 & E1 & W1).
+  destruct (F ops2 r2 R2 H2 P2) as (ls2 & lo2 & m2 & L2 & E2 & W2).
+  unfold ghost_of in HG. injection HG as Gs Gsite Grel Gk Gl Gw.
+  fold s1 in L1. fold s2 in L2. rewrite HL, Gl, L2 in L1. injection L1 as <- <-.
+  unfold final_disp in E1, E2. rewrite Gs, Gsite, Grel, Gk, E2 in E1. injection E1 as <-.
+  rewrite W1, W2, Gw. reflexivity.
+Qed.
+
+(* ------------------------------------------------------------------ embed_label_delta with the range check (fixes/C03-label-delta-range.patch) *)
+Theorem delta_checked_never_truncates s l b size ls lo bo :
+  nth_error (labels s) l = Some (Some (ls, lo)) -> nth_error (labels s) b = Some (Some (ls, bo)) -> size_ok size = true ->
+  (snd (step s (ODeltaChecked l b size)) = EOk /\
+   fst (step s (ODeltaChecked l b size)) = append_cur s [IRaw (le_split (Z.to_nat size) ((lo - bo) mod 2 ^ (8 * size)))] size /\
+   (size = 8 \/ - 2 ^ (8 * size - 1) <= lo - bo < 2 ^ (8 * size - 1))) \/
+  (step s (ODeltaChecked l b size) = (s, EInvalidDisp) /\ size <> 8 /\ ~ (- 2 ^ (8 * size - 1) <= lo - bo < 2 ^ (8 * size - 1))).
+Proof.
+  intros Hl Hb Hs. unfold step. rewrite Hl, Hb, Hs. cbv beta iota. cbn [negb]. cbv beta iota. rewrite Nat.eqb_refl. cbv beta iota.
+  destruct (size =? 8) eqn:E8; cbn [orb fst snd].
+  - left. apply Z.eqb_eq in E8. split; [reflexivity|split; [reflexivity|left; exact E8]].
+  - apply Z.eqb_neq in E8.
+    destruct ((- 2 ^ (8 * size - 1) <=? lo - bo) && (lo - bo <? 2 ^ (8 * size - 1))) eqn:E.
+    + left. apply andb_true_iff in E. destruct E as (A & B). apply Z.leb_le in A. apply Z.ltb_lt in B.
+      split; [reflexivity|split; [reflexivity|right; lia]].
+    + right. split; [reflexivity|]. split; [exact E8|]. intros (A & B). apply andb_false_iff in E.
+      destruct E as [E|E]; [apply Z.leb_gt in E|apply Z.ltb_ge in E]; lia.
 Qed.
